@@ -92,13 +92,15 @@ def build(backend):
     add_tt("tree-type-vector-dict", f"ds.Select(lambda e: {{'n': {coll}.Count(), 'qs': {coll}.Select(lambda j: j.q())}})", ["n", "qs"], [{"int"}, {"std::vector<double>"}])
     add_tt("tree-type-vector-where", f"ds.Select(lambda e: {coll}.Where(lambda j: j.pt() > 0).Select(lambda j: j.q()))", None, [{"std::vector<double>"}])
     # a const-qualified by-value return type: the qualifier says nothing about the column's storage
-    for ct, want in (("const float", "float"), ("const int", "int"), ("const double", "double")):
-        cmd = ({"metadata_type": "add_method_type_info", "type_string": a.primary_cls, "method_name": "q" if "float" in ct else ("nTrk" if "int" in ct else "eta"), "return_type": ct},)
+    for ct, want in (("const float", "float"), ("const int", "int"), ("const double", "double"), ("const short", "short"), ("const  int", "int")):
+        cmd = ({"metadata_type": "add_method_type_info", "type_string": a.primary_cls, "method_name": "q" if "float" in ct else ("nTrk" if ("int" in ct or "short" in ct) else "eta"), "return_type": ct},)
         m = cmd[0]["method_name"]
         for form, q, names, types in ((f"const-return-scalar:{want}", per.format(f"j.{m}()"), None, [{want}]),
                                       (f"const-return-vector:{want}", f"ds.Select(lambda e: {coll}.Select(lambda j: j.{m}()))", None, [{f"std::vector<{want}>"}]),
                                       (f"const-return-first:{want}", f"ds.Select(lambda e: {coll}.First().{m}())", None, [{want}]),
                                       (f"const-return-sum:{want}", f"ds.Select(lambda e: {coll}.Select(lambda j: j.{m}()).Sum())", None, [{want, "double"} if want != "int" else {"int"}])):
+            if want == "short" and "sum" in form:
+                continue      # a Sum over short elements is refused (the accumulator types known are int, float, double): C13's business
             cases.append({"form": form, "query": q, "names": names, "types": types, "raises": False, "extra_md": cmd})
     add_tt("tree-type-2d", f"ds.Select(lambda e: {coll}.Select(lambda j: j.parts().Select(lambda p: p.q())))", None, [{"std::vector<std::vector<double>>"}])
     # columns typed by the BACKEND's own default method table (no declaration in the query), on a fresh executor and on an
